@@ -18,7 +18,7 @@ ID = 'C13'
 LEVEL = 'exploration'
 RUNS = {'quick': 16000, 'thorough': 300000}
 CHUNK = 40
-PROBES = ['request_without_code_table_after_custom_one', 'crossing_classes_on_one_thread', 'process_named_like_a_number', 'empty_thread_map', 'process_of_thread_announced_in_stream', 'dump_cut_at_both_ends', 'class_filter_bsd', 'class_filter_non_bsd', 'bsd_subclass_filter', 'tid_filter', 'process_filter_name', 'process_filter_pid',
+PROBES = ['capture_begins_and_ends_inside_announcement_pairs', 'trace_string_code_outside_trace_class', 'request_without_code_table_after_custom_one', 'crossing_classes_on_one_thread', 'process_named_like_a_number', 'empty_thread_map', 'process_of_thread_announced_in_stream', 'dump_cut_at_both_ends', 'class_filter_bsd', 'class_filter_non_bsd', 'bsd_subclass_filter', 'tid_filter', 'process_filter_name', 'process_filter_pid',
           'helper_trace_class_hidden', 'helper_fs_class_hidden', 'helper_class_requested', 'repeat_request', 'callstacks_repeat',
           'kevents_after_traces', 'tuple_filter', 'images_announced_after_sample', 'combined_filters']
 RULE = ('one run = one long-lived PyKdebugParser and a history of 2..6 judged requests (traces, formatted_traces, callstacks, '
@@ -32,6 +32,7 @@ ASSUMPTIONS = ['subclass filters are BSD subclasses only (the statement says BSD
                'a judged request is created, exhausted and compared under one configuration',
                'no terminate-pid records in these dumps (self re-mapping is C14\'s subject)']
 DBG_TRACE, DBG_FSYSTEM, DBG_BSD = 7, 3, 4
+MOVED_ID = 0x2f00bef0
 
 
 def _gen_filters(rng, dump):
@@ -45,6 +46,9 @@ def _gen_filters(rng, dump):
     elif r < 0.55:
         f['cls'] = rng.pick([[1], [0x1f], [7]])
         f['sub'] = [0x040c]
+    if dump.get('moved_trace') and rng.chance(0.4):
+        f['cls'] = rng.pick([[MOVED_ID >> 24], [MOVED_ID >> 24, 4], [1, MOVED_ID >> 24]])
+        f.pop('sub', None)
     if rng.chance(0.35):
         f['tid'] = rng.pick(tids)
     if rng.chance(0.35):
@@ -162,6 +166,22 @@ def generate(rng, index, tier):
                 else:
                     fl.append({'k': 'tail', 'n': rng.randint(1, max(1, nrec // 3))})
             d['faults'] = fl
+        if rng.chance(0.12):
+            # the capture begins with the second half of one announcement pair and ends with the first half of another, both by
+            # the same thread (their other halves are outside the capture); the pid announced last belongs to a mapped process
+            th = rng.pick(d['threads'])
+            others = [t for t in d['writer'].get('tmap', []) if t[0] != th['tid']]
+            pid = rng.pick(others)[1] if others else 52000 + rng.randrange(50)
+            kind = rng.pick(['NEWTHREAD', 'EXEC'])
+            th['ops'].insert(0, worlds.kernel.text_one('TRACE_STRING_' + kind, rng.ident(3, 9)))
+            th['ops'].append({'k': 'one', 'name': 'TRACE_DATA_' + kind, 'q': 0,
+                              'a': [990000 + rng.randrange(99), pid, 0, rng.word()] if kind == 'NEWTHREAD' else [pid, rng.word(), rng.word(), 0]})
+            d['orphan_halves'] = True
+        if rng.chance(0.15):
+            # a record of a code that only the caller's own table names - as a kernel trace string, outside the trace class
+            th = rng.pick(d['threads'])
+            th['ops'].insert(rng.randrange(len(th['ops']) + 1), {'k': 'raw', 'id': MOVED_ID, 'q': 0, 'a': worlds.kernel.records.text_words(rng.ident(3, 9).encode(), 4)})
+            d['moved_trace'] = True
         if rng.chance(0.2):
             old = d['threads'][0]['tid']
             d['threads'][0]['tid'] = 0          # thread id 0
@@ -182,7 +202,7 @@ def generate(rng, index, tier):
                 hist[-1].update({'which': 'sub', 'value': rng.pick([0x040c, 0x0401, 0x0103])})
         elif r < 0.7:
             hist.append({'op': 'request', 'dump': di, 'what': rng.pick(['traces', 'traces', 'formatted_traces']), 'repeat': rng.chance(0.5),
-                         'codes': rng.pick(['arg', 'arg', 'arg', 'none', 'other'])})
+                         'codes': rng.pick(['arg', 'arg', 'arg', 'none', 'other'] if not dumps[di].get('moved_trace') else ['other', 'other', 'arg'])})
         elif r < 0.85:
             hist.append({'op': 'request', 'dump': di, 'what': 'callstacks', 'repeat': rng.chance(0.7)})
         else:
@@ -344,6 +364,7 @@ def execute(scn):
                 t2 = dict(tables[di])
                 t2.pop(worlds.catalog()['ids']['BSC_getpid'], None)
                 t2[0x2f00beec] = 'BSC_getpid'
+                t2[MOVED_ID] = 'TRACE_STRING_PROC_EXIT'
                 other_tables[di] = t2
             custom_seen[0] = True
             return other_tables[di], other_tables[di]
@@ -427,6 +448,10 @@ def execute(scn):
                     bump('probe:process_of_thread_announced_in_stream')
             if scn['dumps'][di].get('faults'):
                 bump('probe:dump_cut_at_both_ends')
+            if scn['dumps'][di].get('orphan_halves'):
+                bump('probe:capture_begins_and_ends_inside_announcement_pairs')
+            if tref.get(MOVED_ID) and any(_first(t).eventid == MOVED_ID for t, _s, _p in ref) and (MOVED_ID >> 24) in cls:
+                bump('probe:trace_string_code_outside_trace_class')
             if not scn['dumps'][di]['writer'].get('tmap'):
                 bump('probe:empty_thread_map')
             if scn['dumps'][di].get('crossing') and (cls or sub):
